@@ -364,11 +364,73 @@ def check_commit(ctx, wm: WeaverModel):
                 ctx.ok('C20.3', f"{name}: second call of {callee.name} (audited exception: same scalar arguments as the call before the commit)", '',
                        e.loc(), mf.fi.qualname, f"commit-exception:{name}")
                 continue
+            if same:
+                # the same callee with the same scalar arguments already ran before the commit, on the working series: can it refuse the reference
+                # series now?  Decided when every refusal is a comparison over the scalar arguments and the length of the series only.
+                w = _second_call_refusal(rs)
+                if w is False:
+                    ctx.ok('C20.3', f"{name}: second call of {callee.name} cannot refuse once the first one (same scalar arguments) has passed: its "
+                                    f"refusals compare the scalar arguments and the series length only, and none separates two non-empty series", '',
+                           e.loc(), mf.fi.qualname, f"commit-second:{name}")
+                    continue
             late_calls.append((e, rs))
         ctx.check(not late_calls, 'C20.3', f"{name}: no callee that may raise is called after the first field store",
                   '; '.join(f"{e.data['callee'].name}() at {e.loc()} may raise {sorted(set(str(r.data.get('exc')) for r in rs))}" for e, rs in late_calls),
                   (late_calls[0][0].loc() if late_calls else mf.fi.loc()), mf.fi.qualname, f"commit-call:{name}")
     ctx.floor('C20.3', n, 17, 'field-writing methods')
+
+
+def _second_call_refusal(raises):
+    """can one of the callee's refusals hold for a series of length L2 although none held for a series of length L1, with the same scalar arguments?
+    True with a witness found over small sizes, False when none exists there, None when a refusal looks at anything but scalar arguments and lengths"""
+    import itertools
+    from ..truth import tri
+    atoms = set()
+    for r in raises:
+        for g in r.guard:
+            for q in g.rats():
+                for a_ in sym.all_atoms(q):
+                    if sym.ATOMS.head(a_) != 'sym':
+                        return None
+                    atoms.add(a_)
+    lens = sorted(a_ for a_ in atoms if str(sym.ATOMS.args(a_)[0]) in ('L', 'Lref', 'Lnew'))
+    scal = sorted(atoms - set(lens))
+    if len(scal) > 3:
+        return None
+
+    def holds(r, env) -> Optional[bool]:
+        def leaf(q):
+            if isinstance(q, P) and q.op in ('<', '==') and all(isinstance(a_, Num) and a_.length is None for a_ in q.args):
+                vs = [sym.subst(a_.r, env) for a_ in q.args]
+                if all(v_.is_const() for v_ in vs):
+                    return vs[0].const_value() < vs[1].const_value() if q.op == '<' else vs[0].const_value() == vs[1].const_value()
+            return None
+        out = True
+        for g in r.guard:
+            t = tri(g, leaf)
+            if t is None:
+                return None
+            out = out and t
+        return out
+    sizes = (1, 2, 3, 5, 8)
+    for svals in itertools.product((-3, -1, 0, 1, 2, 4), repeat=len(scal)):
+        for l1 in sizes:
+            env1 = {a_: C(l1) for a_ in lens}
+            env1.update({a_: C(v_) for a_, v_ in zip(scal, svals)})
+            first = [holds(r, env1) for r in raises]
+            if any(f is None for f in first):
+                return None
+            if any(first):
+                continue                    # the first call refuses: nothing was stored yet
+            for l2 in sizes:
+                env2 = dict(env1)
+                env2.update({a_: C(l2) for a_ in lens})
+                second = [holds(r, env2) for r in raises]
+                if any(f is None for f in second):
+                    return None
+                if any(second):
+                    return True
+    return False
 
 
 def _is_series(v) -> bool:
